@@ -515,14 +515,22 @@ bool Parser::parse_patch_header(Patch& patch, PatchHeaderInfo& header_info, int 
         auto last_line_looks_like = this_line_looks_like;
         this_line_looks_like = Format::Unknown;
 
+        // The line after a unified range is the first line of that hunk, whatever it may look like. A removed
+        // line with the content "-- x" reads "--- x", which is not another file header.
+        const bool is_first_line_of_unified_hunk = last_line_looks_like == Format::Unified
+            && (patch.format == Format::Unknown || patch.format == Format::Unified)
+            && (starts_with(line, "+") || starts_with(line, "-") || starts_with(line, " "));
+
         // Look for any file headers in the patch header telling up what the old and new file names are.
-        if ((last_line_looks_like != Format::Context && parser.consume_specific("*** "))
+        if (is_first_line_of_unified_hunk) {
+            // Handled below.
+        } else if ((last_line_looks_like != Format::Context && parser.consume_specific("*** "))
             || parser.consume_specific("+++ ")) {
             parser.parse_file_line(strip, patch.old_file_path, &patch.old_file_time);
             continue;
         }
 
-        if (parser.consume_specific("--- ")) {
+        if (!is_first_line_of_unified_hunk && parser.consume_specific("--- ")) {
             parser.parse_file_line(strip, patch.new_file_path, &patch.new_file_time);
             continue;
         }
